@@ -86,6 +86,17 @@ def _short(v):
     return v
 
 
+def encodable(s):
+    try:
+        s.encode("utf8")
+        return True
+    except UnicodeEncodeError:
+        return False
+
+
+BAD_PID = "\udcff-not-utf8"
+
+
 class Model(object):
     def __init__(self, store_algo, default_ns, contents, pids, formats, mcontents=None):
         self.algo = STORE_ALGOS[store_algo]
@@ -187,7 +198,21 @@ class Model(object):
 
     # -- operations ---------------------------------------------------------------------------
     def apply(self, op):
+        pi = op.get("pid")
+        if pi is not None and op["op"] in ("store", "tag", "delete", "retrieve", "hexdigest", "smeta", "rmeta", "dmeta") \
+                and not encodable(self.pids[pi]):
+            return self._unencodable(op)
         return getattr(self, "op_" + op["op"])(op)
+
+    def _unencodable(self, op):
+        """A pid that cannot be encoded as UTF-8 (a lone surrogate, e.g. from os.fsdecode of a non-UTF-8 file
+        name) passes the string checks and fails when its hash is taken: every call on it raises
+        UnicodeEncodeError and binds nothing.  store_object has stored the object by then (an unreferenced object,
+        as after any store whose tagging is refused).  Generators only issue plain calls on such a pid (no
+        validation arguments, existing data), so no other rejection takes precedence."""
+        if op["op"] == "store":
+            self.objs.add(self.cid_of(self.contents[op["c"]]))
+        return Expect(excs=["UnicodeEncodeError"])
 
     def _digest_map(self, data, add, ckalgo):
         keys = list(DEFAULT_ALGOS)
@@ -295,6 +320,8 @@ class Model(object):
 
     def op_retrieve(self, op):
         pid = self.pids[op["pid"]]
+        if not encodable(pid):
+            return Expect(excs=["UnicodeEncodeError"])
         if pid not in self.pid2cid:
             return Expect(excs=["PidRefsDoesNotExist"])
         cid = self.pid2cid[pid]
@@ -324,6 +351,8 @@ class Model(object):
 
     def op_rmeta(self, op):
         pid = self.pids[op["pid"]]
+        if not encodable(pid):
+            return Expect(excs=["UnicodeEncodeError"])
         f = self.fmt(None if op.get("fmt") is None else self.formats[op["fmt"]])
         if (pid, f) not in self.meta:
             return Expect(excs=["ValueError"])
